@@ -78,7 +78,7 @@ def negatives(rng, streams):
     out = []
     for kind, s, t, ans, p in streams:
         if kind == "http" and p is not None:
-            for f in rng.sample(["header_no_colon", "nondigit_minor", "no_final_empty_line", "misspelt_http"], 2):
+            for f in rng.sample(["header_no_colon", "nondigit_minor", "no_final_empty_line", "misspelt_http", "folded_header", "folded_header"], 2):
                 out.append(("http_neg", http.fault(rng, p, f), None, False, None))
             # a foreign preface followed by a valid request: unanswered in one piece, so unanswered under every cut
             # (in particular the cut that falls exactly at the start of the request)
@@ -236,7 +236,9 @@ def shard(ctx, budget_s, n_http, n_rpc, maxlen):
     cfg = gen.rnd_config(rng, deny=False, logger="n", level=0)
     ctx.case(cfg)
     streams = gen_streams(rng, n_http, n_rpc, maxlen)
-    streams += negatives(rng, streams)[:6 if ctx.tier == "quick" else 24]
+    negs = negatives(rng, streams)
+    rng.shuffle(negs)           # prefaced requests and single-fault requests alike
+    streams += negs[:8 if ctx.tier == "quick" else 32]
     hist = ctx.extra.setdefault("first_cut_histogram", {})
     for si, (kind, stream, trig, _ans, _p) in enumerate(streams):
         if time.time() > deadline and si > 0:
